@@ -28,7 +28,50 @@ def sh(cmd, cwd=None, env=None, timeout=3600):
     return r.returncode, r.stdout
 
 
+def checks_only(sid, props):
+    """Re-run checks against an already confirmed seeded change (after a check was strengthened)."""
+    out = os.path.join(ROOT, 'seeded', sid)
+    rec = json.load(open(os.path.join(out, 'meta.json')))
+    patch = os.path.join(out, 'patch.diff')
+    rc, o = sh('git -C /repo status --porcelain --untracked-files=no')
+    if o.strip():
+        print('refusing: /repo has uncommitted changes')
+        return 2
+    rc, o = sh('git -C /repo apply %s' % patch)
+    if rc != 0:
+        print('patch does not apply to /repo:', o)
+        return 2
+    try:
+        for p in props:
+            t0 = time.time()
+            rc, o = sh('%s check.py %s --tier quick' % (PY, p), cwd=ROOT, timeout=3000)
+            lines = [l for l in o.splitlines() if 'new failure bucket' in l or l.startswith('VIOLATION') or 'regression' in l
+                     or l.startswith('HARNESS')]
+            prev = rec['checks'].get(p)
+            rec['checks'][p] = {'exit': rc, 'wall_s': round(time.time() - t0), 'detected': rc == 1,
+                                'report': [l.strip()[:260] for l in lines[:8]]}
+            if prev is not None and not prev.get('detected'):
+                rec['checks'][p]['before_strengthening'] = {'exit': prev['exit'], 'detected': False}
+            for l in o.splitlines():
+                if l.startswith('VIOLATION') and 'replay=' in l:
+                    pth = l.split('replay=')[1].strip()
+                    if '/fixed/' not in pth and '/known/' not in pth:
+                        dst = os.path.join(out, 'found_by_%s.json' % p)
+                        if not os.path.exists(dst):
+                            shutil.copy(os.path.join(ROOT, pth), dst)
+                            rec['checks'][p]['replay_kept'] = os.path.relpath(dst, ROOT)
+                        os.remove(os.path.join(ROOT, pth))
+            print('  check', p, 'exit', rc, 'DETECTED' if rc == 1 else 'MISSED')
+    finally:
+        sh('git -C /repo checkout -- .')
+        sh('git -C %s checkout -- evidence' % ROOT)
+    json.dump(rec, open(os.path.join(out, 'meta.json'), 'w'), indent=1)
+    return 0
+
+
 def main():
+    if sys.argv[1] == '--checks-only':
+        return checks_only(sys.argv[2], sys.argv[3:])
     sid, wt, props = sys.argv[1], sys.argv[2], sys.argv[3:]
     out = os.path.join(ROOT, 'seeded', sid)
     os.makedirs(out, exist_ok=True)
